@@ -49,6 +49,37 @@ CHECKS = [
          technique="symbolic execution of compute_matrix on z3-decided polynomial terms (QF_NRA identity proofs)"),
 ]
 
+E2 = "E2 crosshair"
+E2_NOTE = ("Trusted base: CrossHair 0.0.110 + z3 (symbolic execution of the real Python code; 'Confirmed over all paths' means every "
+           "path within the pre: bounds was explored), the reference models in /verif/contracts. Conditions marked 'mode: search' "
+           "(hash(), error-message formatting, float products and dict.fromkeys realise symbolic values) are bounded counterexample "
+           "searches reported under coverage.bounded_search_only and are not counted as proof obligations. Every counterexample is "
+           "re-evaluated in plain CPython on the real code before it is reported.")
+CHECKS += [
+    dict(property_id="C44", category="proof", engine=E2,
+         text="The real Shots class is executed by CrossHair on symbolic specifications (lists of <=4 ints / (shots, copies) pairs, "
+              "values 1..6, copies 1..3): total_shots, iteration order, shot_vector (= run-length encoding), bins (= prefix sums), "
+              "num_copies, has_partitioned_shots, +, int scaling, ==, rejection of non-positive entries are each confirmed over ALL "
+              "paths within those bounds against the expanded list of shot counts.",
+         note=E2_NOTE + " Float scaling (0.5, 1.5, 2.5) and hash consistency are search-mode only.",
+         technique="CrossHair symbolic execution (z3) of Shots against a list reference model, confirmed over all paths within stated bounds"),
+    dict(property_id="C45", category="proof", engine=E2,
+         text="The real Wires class is executed by CrossHair on symbolic label lists (<=4 symbolic int labels; symbolic selections from a "
+              "pool of int/str/tuple labels): construction, | & - ^ (also reflected), shared_wires, unique_wires, index/indices, map, "
+              "subset (incl. periodic), ==/!=, contains_wires are confirmed over ALL paths within the bounds against Python set/list "
+              "semantics.",
+         note=E2_NOTE + " all_wires/+ (dict.fromkeys), duplicate rejection and missing-label errors (message formatting), hash: search-mode only.",
+         technique="CrossHair symbolic execution (z3) of Wires against set/list reference semantics, confirmed over all paths within stated bounds"),
+    dict(property_id="C50", category="proof", engine="E5 symbit + z3",
+         text="binary_finite_reduced_row_echelon, binary_matrix_rank, binary_solve_linear_system, binary_is_independent and "
+              "binary_select_basis are executed on numpy object arrays whose entries are free z3 Booleans; every data-dependent branch "
+              "forks through the solver, and on every feasible path z3 proves: RREF form + same kernel, rank = c - log2|ker|, Ax=b / "
+              "LinAlgError iff singular, independence iff not in span, selected basis independent+spanning. One proof covers all "
+              "2^(r*c) matrices of a shape (quick: up to 3x4; thorough: up to 5x6).",
+         note="Trusted base: z3, the vf.symbit lifting (sat models are replayed on int arrays through the real functions). Outside: larger shapes, numpy's typed ^= kernels, the callers in qchem.tapering / intermediate_reps.",
+         technique="lifted execution of the real GF(2) code on z3 Booleans with solver-pruned path forking; per-path Boolean validity queries"),
+]
+
 _NOT_BUILT = "claimed in DESIGN.md §4 but its solver-based check is not built yet in this tree"
 NOT_APPLICABLE_REASONS = {
     "C04": "equality/hash: Python hash() of concrete payloads and tolerance-based allclose relations; no exact relation a solver can decide",
